@@ -32,6 +32,8 @@ def hostile_scenario(rng):
     script = []
     for i in range(rng.choice([12, 25])):
         acts = []
+        if i == 0 and rng.random() < 0.6:
+            acts.append(('lateio', rng.randrange(1, 1 << 30)))
         r = rng.random()
         if r < 0.5:
             acts.append(('write', rng.choice(['w0', 'l0', 'w1']), rng.choice(['stdout', 'stderr']), rng.choice(HOSTILE)))
@@ -53,6 +55,30 @@ def hostile_scenario(rng):
             acts.append(('rpc', 5000 + i, 'supervisor.sendProcessStdin', ('g:w0' if rng.random() < 0.5 else 'g2:w1', 'x' * rng.choice([1000, 70000, 140000]))))
         script.append((rng.choice([512, 1024, 2048, 5 * 1024]), acts))
     return progs, script
+
+
+ANSWERS = [b'RESULT 2\nOK', b'RESULT 2\nOKREADY\n', b'RESULT 0\nREADY\n', b'RESULT 0\n', b'RESULT 00\nREADY\n', b'RESULT 4\nFAILREADY\n',
+           b'RESULT 1\nxREADY\nRESULT 0\nREADY\n', b'RESULT -1\nREADY\n', b'RESULT 2\nOKRESULT 2\nOK', b'RESULT 3\nOK', b'READY\n', b'RESULT \n',
+           b'RESULT 2\n\xff\xfeREADY\n', b'RESULT 99999999999999999999\nREADY\n']
+
+
+def listener_scenario(rng):
+    """a listener that follows the protocol (READY, gets an event, answers) with boundary-case answers glued to what it writes
+    next, often exiting in the same pass; half of its output is only seen after poll() has returned (lateio), so that it is
+    read by the guarded dispatcher loop in some passes and by the unguarded drain() of finish() in others"""
+    progs = [dict(name='w0', group='g', startsecs=0, autorestart='true'),
+             dict(name='l0', group='pool', gprio=1, startsecs=0, autorestart='true', listener=dict(events=['PROCESS_STATE', 'TICK_5'], buffer_size=3))]
+    script = [(1024, [('lateio', rng.randrange(1, 1 << 30), rng.choice([0.5, 0.5, 0.8, 1.0]))]), (1024, [])]
+    for _ in range(rng.choice([4, 8])):
+        script.append((1024, [('write', 'l0', 'stdout', b'READY\n'), ('exit', 'w0', rng.choice([0, 1]))]))
+        for _ in range(rng.choice([1, 2])):
+            script.append((rng.choice([512, 1024]), []))
+        acts = [('write', 'l0', 'stdout', rng.choice(ANSWERS))]
+        if rng.random() < 0.5:
+            acts.append(('exit', 'l0', rng.choice([0, 1])))
+        script.append((1024, acts))
+        script.append((1024, []))
+    return progs, script + [(1024, [])] * 3
 
 
 def single_faults(ctx, base):
@@ -79,8 +105,10 @@ def run(ctx):
     mons = [l2.mon_c06, l2.mon_c02]
     # 1. random scenarios with random faults (model correspondence included)
     l2common.run_all(ctx, l2common.scenarios(ctx, 600, 12000, faults_p=1.0), mons)
+    l2common.run_all(ctx, [l2.unknown_scenario(rng) for _ in range(ctx.n(150, 3000))], mons)
     # 2. hostile streams through real dispatchers and a real listener pool (no model correspondence: output is not in Model/Sup)
     l2common.run_all(ctx, [hostile_scenario(rng) for _ in range(ctx.n(300, 6000))], mons, correspond=False)
+    l2common.run_all(ctx, [listener_scenario(rng) for _ in range(ctx.n(150, 3000))], mons, correspond=False)
     # 3. exhaustive single faults over base scenarios
     for b in range(ctx.n(2, 12)):
         progs = l2.gen_programs(rng, 3)
